@@ -311,6 +311,31 @@ def fill_events(events):
     return out
 
 
+def generated_scenarios(ctx, sample):
+    """two-pass scans (201 port ranges, paced) under every stimulus ScanRunGen enumerates: frames of three kinds arriving in five phases"""
+    import random
+    out = os.path.join(ctx.scratch, "scanrun-gen.ndjson")
+    r = ctx.tlc("ScanRunGen", env={"VF_OUT": out}, workers=1, timeout=300)
+    if not r.no_error:
+        raise vf.Inconclusive("ScanRunGen failed:\n" + r.out[-2000:])
+    stim = [json.loads(l) for l in open(out)]
+    stim.sort(key=lambda s: json.dumps(s, sort_keys=True))
+    if sample and len(stim) > sample:
+        stim = random.Random(ctx.seed * 31 + 5).sample(stim, sample)
+    a1 = [10, 9, 3, 1]
+    ports = list(range(1000, 1201))
+    chunk1, chunk2 = [rng(p, p) for p in ports[:200]], [rng(p, p) for p in ports[200:]]
+    frame = {"reply1": tcp_reply(a1, 1005, 0x12), "reply2": tcp_reply(a1, 1200, 0x12), "unshaped": tcp_reply(a1, 1005, 0x14)}
+    slot = {"send1": (50, 0), "listen1early": (200, 120), "listen1late": (200, 560), "listen2early": (201, 120), "listen2late": (201, 560)}
+    sc = []
+    for i, s in enumerate(stim):
+        inj = [{"bytes": frame[f["kind"]], "afterProbe": slot[f["slot"]][0], "delayMs": slot[f["slot"]][1]} for f in s["frames"]]
+        sc.append({"name": "gen-%03d-%s" % (i, "+".join("%s@%s" % (f["kind"], f["slot"]) for f in s["frames"]) or "none"),
+                   "args": ["tcp", "syn", "--json", "--rate", "400/s", "-p", ",".join(str(p) for p in ports)] + COMMON + ["--exit-delay", "700ms", "10.9.3.1"], "files": {"empty": ""},
+                   "inject": inj, "expect": packet_expect("tcpsyn", target(a1, 32, chunk1 + chunk2), [chunk1, chunk2], [200, 1], 700, rate={"n": 400, "winMs": 1000, "winNs": 0})})
+    return sc
+
+
 def decode_record(scan, line):
     """projection of one stdout line to the record fields the specification talks about"""
     rec = {"ip": [0, 0, 0, 0], "port": 0, "flags": [], "mac": [], "ttl": 0, "type": 0, "code": 0, "raw": line[:200]}
@@ -350,13 +375,18 @@ def available():
         return False
 
 
-def run_wire(ctx, select=None, label="wire", focus="all"):
+def run_wire(ctx, select=None, label="wire", focus="all", extra=None):
     """runs the scenarios (optionally filtered by name predicate) and validates them; returns (runs, rejected)"""
     if not available():
         ctx.notes.append("socket-level tier skipped: unshare -n is not permitted here")
         ctx.step(label, skipped=True)
         return 0, []
     allsc = scenarios(ctx.tier)
+    if extra:
+        for i, s in enumerate(extra):
+            s["id"] = len(allsc) + i + 1
+            s.setdefault("inject", [])
+        allsc = allsc + extra
     sc = [s for s in allsc if select is None or select(s)]
     need = {s["stdinFrom"] for s in sc if s.get("stdinFrom")}
     sc += [s for s in allsc if s["name"] in need and s not in sc]
